@@ -74,12 +74,20 @@ theorem iterRemove_ofList (xs : List Nat) (c : LSeq.Cursor) (it : Iter) (m : Mem
         · rw [if_neg hp, if_neg (by omega)]; rfl
       · simp only [List.length_eraseIdx, hk, if_true]; have := h.le; omega
 
+theorem shiftIns_ptrAt' (n k p : Nat) (hk : k < p) (hp : p ≤ n) :
+    (ptrAt n p).shiftIns (k + 1) 1 = ptrAt (n + 1) (p + 1) := by
+  simp only [ptrAt]
+  by_cases h : p < n
+  · rw [if_pos h, if_pos (by omega)]; simp only [Ptr.shiftIns]; rw [if_pos (by omega)]
+  · rw [if_neg h, if_neg (by omega)]; rfl
+
 theorem iterAdd_ofList (xs : List Nat) (c : LSeq.Cursor) (it : Iter) (x k : Nat) (m : Mem) (h : ItRel xs c it)
-    (hc : c.cur = some k) (hpos : c.pos = k + 1) :
+    (hc : c.cur = some k) :
     ∃ it', iterAdd (ofList t xs) it x m =
       (if (m.allocT t).1 then (.ok, ofList t (LSeq.itAdd false xs c x).1, it', (m.allocT t).2) else (.errAlloc, ofList t xs, it, (m.allocT t).2)) ∧
     ItRel (LSeq.itAdd false xs c x).1 (LSeq.itAdd false xs c x).2 it' := by
   unfold iterAdd LSeq.itAdd
+  have hkp := h.cur k hc
   have hk : k < xs.length := by have := h.le; omega
   have h0 : xs.length ≠ 0 := by omega
   rw [h.lst, hc]
@@ -87,25 +95,23 @@ theorem iterAdd_ofList (xs : List Nat) (c : LSeq.Cursor) (it : Iter) (x k : Nat)
   · (try simp only [ofList_triple])
     by_cases ha : (m.allocT t).1 = true
     · simp only [ha, Bool.not_true, Bool.false_eq_true, if_false, if_true, ofList_nodes, Ptr.valid, hk, decide_true,
-        Mem.check_true, Ptr.pos, Option.getD_some, ofList_size, h.idx, hpos]
-      congr 1; congr 1
-      simp only [Chain.ins, ofList, h0, if_false, Ptr.shiftIns, List.length_insertIdx]
-      ptr_arith
+        Mem.check_true, Ptr.pos, Option.getD_some, ofList_size, h.idx, Ptr.next]
+      by_cases hlast : k + 1 < xs.length
+      all_goals
+        simp only [hlast, if_true, if_false, reduceCtorEq]
+        congr 1; congr 1
+        simp only [Chain.ins, ofList, h0, if_false, Ptr.shiftIns, List.length_insertIdx]
+        ptr_arith
     · simp [ha]
   · simp only [Bool.false_eq_true, if_false]
+    have hle : k + 1 ≤ xs.length := by omega
     refine ⟨by simp only [h.idx], ?_, ?_, ?_, ?_⟩
-    · rw [h.nxt]
-      have hle : k + 1 ≤ xs.length := by omega
-      simp only [ptrAt, List.length_insertIdx, hpos, hle, if_true]
-      by_cases hp : k + 1 < xs.length
-      · rw [if_pos hp, if_pos (by omega)]; simp [Ptr.shiftIns]
-      · rw [if_neg hp, if_neg (by omega)]; rfl
+    · rw [h.nxt, shiftIns_ptrAt' _ _ _ hkp h.le]; simp [List.length_insertIdx, hle]
     · simp [Ptr.shiftIns]
-    · have hle : k + 1 ≤ xs.length := by omega
-      simp only [List.length_insertIdx, hle, if_true, hpos]; omega
+    · simp only [List.length_insertIdx, hle, if_true]; have := h.le; omega
     · intro k' hk'
       simp only [Option.some.injEq] at hk'
-      simp only [hpos]; omega
+      subst hk'; exact Nat.lt_succ_of_lt hkp
 
 /-! ### descending iterator -/
 structure DitRel (xs : List Nat) (c : LSeq.Cursor) (it : Iter) : Prop where
@@ -113,7 +119,7 @@ structure DitRel (xs : List Nat) (c : LSeq.Cursor) (it : Iter) : Prop where
   nxt : it.next = if c.pos = 0 then none else some (c.pos - 1)
   lst : it.last = c.cur
   le : c.pos ≤ xs.length
-  cur : ∀ k, c.cur = some k → c.pos ≤ k ∧ k < xs.length
+  cur : ∀ k, c.cur = some k → c.pos = k ∧ k < xs.length
 
 theorem diterInit_rel (xs : List Nat) : DitRel xs (LSeq.ditNew xs) (diterInit (ofList t xs)) :=
   ⟨rfl, by simp [diterInit, ofList, LSeq.ditNew], rfl, Nat.le_refl _, by intro k h; cases h⟩
@@ -180,11 +186,12 @@ theorem diterRemove_ofList (xs : List Nat) (c : LSeq.Cursor) (it : Iter) (m : Me
       · simp only [List.length_eraseIdx, hk, if_true]; omega
 
 theorem diterAdd_ofList (xs : List Nat) (c : LSeq.Cursor) (it : Iter) (x k : Nat) (m : Mem) (h : DitRel xs c it)
-    (hc : c.cur = some k) (hpos : c.pos = k) :
+    (hc : c.cur = some k) :
     ∃ it', diterAdd (ofList t xs) it x m =
       (if (m.allocT t).1 then (.ok, ofList t (LSeq.ditAdd xs c x).1, it', (m.allocT t).2) else (.errAlloc, ofList t xs, it, (m.allocT t).2)) ∧
     DitRel (LSeq.ditAdd xs c x).1 (LSeq.ditAdd xs c x).2 it' := by
   unfold diterAdd LSeq.ditAdd
+  have hpos : c.pos = k := (h.cur k hc).1
   have hk : k < xs.length := (h.cur k hc).2
   have h0 : xs.length ≠ 0 := by omega
   rw [h.lst, hc]
@@ -312,7 +319,7 @@ theorem zipRemove_ofList (xs ys : List Nat) (c : LSeq.Cursor) (z : ZipIter) (m :
       · simp only [List.length_eraseIdx, hk2, if_true]; have := h.le2; omega
 
 theorem zipAdd_ofList (xs ys : List Nat) (c : LSeq.Cursor) (z : ZipIter) (x1 x2 k : Nat) (m : Mem)
-    (h : ZipRel xs ys c z) (hc : c.cur = some k) (hpos : c.pos = k + 1) :
+    (h : ZipRel xs ys c z) (hc : c.cur = some k) :
     ∃ z', zipAdd (ofList t xs) (ofList t2 ys) z x1 x2 m =
       (if (m.allocT t).1 then
          (if ((m.allocT t).2.allocT t2).1 then
@@ -321,6 +328,7 @@ theorem zipAdd_ofList (xs ys : List Nat) (c : LSeq.Cursor) (z : ZipIter) (x1 x2 
        else (.errAlloc, ofList t xs, ofList t2 ys, z, (m.allocT t).2)) ∧
     ZipRel (LSeq.zitAdd false xs ys c x1 x2).1 (LSeq.zitAdd false xs ys c x1 x2).2.1 (LSeq.zitAdd false xs ys c x1 x2).2.2 z' := by
   unfold zipAdd LSeq.zitAdd
+  have hkp := h.cur k hc
   have hk1 : k < xs.length := by have := h.le1; omega
   have hk2 : k < ys.length := by have := h.le2; omega
   have h01 : xs.length ≠ 0 := by omega
@@ -332,24 +340,30 @@ theorem zipAdd_ofList (xs ys : List Nat) (c : LSeq.Cursor) (z : ZipIter) (x1 x2 
     by_cases ha : (m.allocT t).1 = true
     · by_cases hb : ((m.allocT t).2.allocT t2).1 = true
       · simp only [ha, hb, Bool.not_true, Bool.false_eq_true, if_false, if_true, ofList_nodes, Ptr.valid, hk1, hk2,
-          decide_true, Bool.and_self, Mem.check_true, Ptr.pos, Option.getD_some, ofList_size, h.idx, hpos]
+          decide_true, Bool.and_self, Mem.check_true, Ptr.pos, Option.getD_some, ofList_size, h.idx, Ptr.next]
         congr 1; congr 1
-        · simp only [Chain.ins, ofList, h01, if_false, Ptr.shiftIns, List.length_insertIdx]
-          ptr_arith
+        · by_cases hlast : k + 1 < xs.length
+          all_goals
+            simp only [hlast, if_true, if_false, reduceCtorEq]
+            simp only [Chain.ins, ofList, h01, if_false, Ptr.shiftIns, List.length_insertIdx]
+            ptr_arith
         · congr 1
-          simp only [Chain.ins, ofList, h02, if_false, Ptr.shiftIns, List.length_insertIdx]
-          ptr_arith
+          by_cases hlast : k + 1 < ys.length
+          all_goals
+            simp only [hlast, if_true, if_false, reduceCtorEq]
+            simp only [Chain.ins, ofList, h02, if_false, Ptr.shiftIns, List.length_insertIdx]
+            ptr_arith
       · simp [ha, hb]
     · simp [ha]
   · simp only [Bool.false_eq_true, if_false]
     have hle1 : k + 1 ≤ xs.length := by omega
     have hle2 : k + 1 ≤ ys.length := by omega
     refine ⟨by simp only [h.idx], ?_, ?_, by simp [Ptr.shiftIns], by simp [Ptr.shiftIns], ?_, ?_, ?_⟩
-    · rw [h.nxt1, hpos, shiftIns_ptrAt _ _ hle1]; simp [List.length_insertIdx, hle1]
-    · rw [h.nxt2, hpos, shiftIns_ptrAt _ _ hle2]; simp [List.length_insertIdx, hle2]
-    · simp only [List.length_insertIdx, hle1, if_true, hpos]; omega
-    · simp only [List.length_insertIdx, hle2, if_true, hpos]; omega
+    · rw [h.nxt1, shiftIns_ptrAt' _ _ _ hkp h.le1]; simp [List.length_insertIdx, hle1]
+    · rw [h.nxt2, shiftIns_ptrAt' _ _ _ hkp h.le2]; simp [List.length_insertIdx, hle2]
+    · simp only [List.length_insertIdx, hle1, if_true]; have := h.le1; omega
+    · simp only [List.length_insertIdx, hle2, if_true]; have := h.le2; omega
     · intro k' hk'
       simp only [Option.some.injEq] at hk'
-      simp only [hpos]; omega
+      subst hk'; exact Nat.lt_succ_of_lt hkp
 end CC.DList
